@@ -11,6 +11,9 @@ import (
 func verifResizeScript(nsteps int) {
 	n0 := 1 + vrt.Choice(3)
 	chunk := uint64(1 + vrt.Choice(2))
+	if chunk > uint64(n0) {
+		chunk = uint64(n0)
+	}
 	var maxDim uint64
 	unlimited := vrt.Bool()
 	if unlimited {
@@ -26,6 +29,10 @@ func verifResizeScript(nsteps int) {
 	for i := range model {
 		model[i] = vrt.I32()
 	}
+	// regrown[i]: position i was cut off by a shrink and exposed again by a later grow without a rewrite
+	// (known finding KF-C13-regrow: the old chunk is still in the index and its value reappears).
+	regrown := make([]bool, 8)
+	high := n0 // one past the highest position ever written and not rewritten since
 	vrt.AssertNoErr(ds.Write(model), "write-ok")
 	for s := 0; s < nsteps; s++ {
 		newN := 1 + vrt.Choice(5)
@@ -43,12 +50,19 @@ func verifResizeScript(nsteps int) {
 		for i := 0; i < newN && i < len(model); i++ {
 			nm[i] = model[i]
 		}
+		for i := len(model); i < newN; i++ {
+			if i < high {
+				regrown[i] = true
+			}
+		}
 		model = nm
 		if vrt.Bool() {
 			for i := range model {
 				model[i] = vrt.I32()
+				regrown[i] = false
 			}
 			vrt.AssertNoErr(ds.Write(model), "rewrite-ok")
+			high = len(model)
 		}
 	}
 	vrt.AssertNoErr(fw.Close(), "close-ok")
@@ -61,7 +75,11 @@ func verifResizeScript(nsteps int) {
 	vrt.Assert(len(got) == len(model), "shape-is-last-requested")
 	if len(got) == len(model) {
 		for i := range model {
-			vrt.Assert(got[i] == float64(model[i]), "values-after-resize")
+			if regrown[i] {
+				vrt.Assert(got[i] == float64(model[i]), "regrown-space-reads-zero")
+			} else {
+				vrt.Assert(got[i] == float64(model[i]), "values-after-resize")
+			}
 		}
 	}
 	vrt.Covered("resize-compared")
